@@ -381,7 +381,7 @@ Section To.
         | x :: r => do tvx <- to_go f false et x ;; do g <- place et tvx ;; do gs <- elems et r ;; Ok (g :: gs)
         end in
       (* array elements: converted in order; the element at an index beyond the array length panics *)
-      let aelems := fix aelems (et : gotype) (room : nat) (l : list robj) : res (list goval) :=
+      let aelems := fix aelems (et : gotype) (room : nat) (l : list robj) {struct l} : res (list goval) :=
         match l with
         | [] => Ok []
         | x :: r => do tvx <- to_go f false et x ;;
